@@ -81,32 +81,34 @@ func targets(c Config, m model, thorough bool) []tgt {
 	for _, l := range m.Locs {
 		n := l.Path
 		e := enc(n)
-		add(e, true)          // exact
-		add(e+"/", true)      // trailing slash
-		add(e+"/x", true)     // one-segment extension
-		add(e+"x", true)      // longer last segment
+		add(e, true)              // exact
+		add(e+"/", true)          // trailing slash
+		add(e+"/x", true)         // one-segment extension
+		add(e+"x", true)          // longer last segment
 		if !l.Must && full >= 2 { // MAY locations beyond the first two: the three spellings above
 			continue
 		}
 		full++
 		last := n[strings.LastIndex(n, "/")+1:]
-		add("/."+e, true)                  // leading dot segment
-		add("/zz/.."+e, true)              // x/../ prefix
-		add(e+"/.", true)                  // trailing dot segment
-		add(e+"/..", true)                 // parent
-		add(e+"/../"+enc(last), true)      // leaves and comes back
-		add("/"+e, true)                   // doubled leading slash
+		add("/."+e, true)             // leading dot segment
+		add("/zz/.."+e, true)         // x/../ prefix
+		add(e+"/.", true)             // trailing dot segment
+		add(e+"/..", true)            // parent
+		add(e+"/../"+enc(last), true) // leaves and comes back
+		add("/"+e, true)              // doubled leading slash
 		add(strings.Replace(e, "/", "//", 2), true)
 		add(e+"%2F", true)                 // encoded trailing slash
-		add(e+"%2Fx", true)                // encoded slash + segment
 		add(e+"?q=1", true)                // query
-		add(e+"/?x=/other", true)
 		add("http://example.test"+e, true) // absolute form
 		add(e+".html", true)
-		add(e+"/index.html", true)
-		add(e+"%00", true)
-		add(e+"%20", true)
-		add(e+";v=1", true)
+		if thorough {
+			add(e+"%2Fx", true) // encoded slash + segment
+			add(e+"/?x=/other", true)
+			add(e+"/index.html", true)
+			add(e+"%00", true)
+			add(e+"%20", true)
+			add(e+";v=1", true)
+		}
 		add(enc(parent(n))+"/zzz", true) // sibling
 		if len(n) > 1 {
 			add(enc(n[:len(n)-1]), true) // last character missing
@@ -147,45 +149,51 @@ func targets(c Config, m model, thorough bool) []tgt {
 	for _, f := range fixed {
 		add(f, false)
 	}
-	_ = thorough
 	return out
 }
 
 // ---- configurations ----
 
 type axes struct {
-	bases, paths, specURLs, titles, cbs, apiBases, uiBases, uiPaths, apiSpecURLs []string
-	methods                                                                     []string
+	bases, paths, specURLs, titles                   []string // direct UI kinds
+	cbBases, cbPaths, cbSpecURLs, cbTitles, cbs      []string // OAuth2 callback
+	apiBases, uiBases, uiPaths, apiSpecURLs, methods []string
 }
 
 const unset = "\x00unset"
 
 func theAxes(thorough bool) axes {
 	a := axes{
-		bases:    []string{"", "/", "/base", "base", "/base/"},
-		paths:    []string{"", "ui", "/ui/x", "docs/"},
-		specURLs: []string{"", "/x/spec.json", "https://h/x/y/openapi.json", "/x/" + mk("Sq") + ".json"},
-		titles:   []string{"", mk("Tq")},
-		cbs:      []string{"", "/cb", "/cb/", "https://h/cb", "/c/" + mk("Cq")},
-		apiBases: []string{unset, "/", "/base", "base"},
-		uiBases:  []string{unset, "other"},
-		uiPaths:  []string{unset, "ui", "/ui/x"},
-		apiSpecURLs: []string{unset, "/x/spec.json", "https://h/x/y/openapi.json", "//h/x/spec.json", "/x/spec.json?v=1", "spec.json", "x/spec.json",
+		bases:      []string{"", "/", "/base", "base", "/base/"},
+		paths:      []string{"", "ui", "/ui/x", "docs/"},
+		specURLs:   []string{"", "https://h/x/y/openapi.json", "/x/" + mk("Sq") + ".json"},
+		titles:     []string{"", mk("Tq")},
+		cbBases:    []string{"", "/base", "base"},
+		cbPaths:    []string{"", "/ui/x"},
+		cbSpecURLs: []string{"", "/x/" + mk("Sq") + ".json"},
+		cbTitles:   []string{"", mk("Tq")},
+		cbs:        []string{"", "/cb", "/cb/", "https://h/cb", "/c/" + mk("Cq")},
+		apiBases:   []string{unset, "/", "/base", "base"},
+		uiBases:    []string{unset, "other"},
+		uiPaths:    []string{unset, "/ui/x"},
+		apiSpecURLs: []string{unset, "/x/spec.json", "https://h/x/y/openapi.json?v=1", "spec.json", "x/spec.json",
 			"/x/y/", "/base/op", "/docs", "/x/" + mk("Sq") + ".json"},
 		methods: []string{"GET", "HEAD", "POST"},
 	}
 	if thorough {
-		a.bases = append(a.bases, "/a/b", "//base", "/a/../base", "/"+mk("Bq"))
-		a.paths = append(a.paths, "/", "docs.html", "./ui", mk("Pq"))
-		a.specURLs = append(a.specURLs, "spec.json")
+		a.bases = append(a.bases, "/a/b", "/a/../base", "/"+mk("Bq"))
+		a.paths = append(a.paths, "/", "docs.html", mk("Pq"))
+		a.specURLs = []string{"", "/x/spec.json", "https://h/x/y/openapi.json", "/x/" + mk("Sq") + ".json"}
 		a.titles = []string{"", "My API", mk("Tq")}
+		a.cbBases = []string{"", "/", "/base", "base", "/" + mk("Bq")}
+		a.cbPaths = []string{"", "ui", "/ui/x", "docs/"}
 		a.cbs = append(a.cbs, "cb", "/a//cb", "/c%62")
 		a.apiBases = []string{unset, "", "/", "/base", "base", "/base/"}
-		a.uiBases = []string{unset, "/other", "other", ""}
+		a.uiBases = []string{unset, "/other", "other"}
 		a.uiPaths = []string{unset, "ui", "/ui/x", "/"}
-		a.apiSpecURLs = append(a.apiSpecURLs, "/swagger.json", "/spec.json", "http://h:8080/openapi.json?v=1#frag", "/x/my%20spec.json",
+		a.apiSpecURLs = append(a.apiSpecURLs, "https://h/x/y/openapi.json", "//h/x/spec.json", "/x/spec.json?v=1", "/swagger.json", "http://h:8080/openapi.json?v=1#frag", "/x/my%20spec.json",
 			"/x//y/../spec.json", "/op", "/base/docs", "https://h", "", "/x/a%2Fb.json", "../spec.json")
-		a.methods = []string{"GET", "HEAD", "POST", "OPTIONS", "DELETE"}
+		a.methods = []string{"GET", "HEAD", "POST", "OPTIONS"}
 	}
 	return a
 }
@@ -212,6 +220,7 @@ func directUIConfigs(kind string, a axes) []Config {
 	cbs := []string{""}
 	if kind == "oauth2cb" {
 		cbs = a.cbs
+		a.bases, a.paths, a.specURLs, a.titles = a.cbBases, a.cbPaths, a.cbSpecURLs, a.cbTitles
 	}
 	templates := []string{"", customTemplate(kind)}
 	for _, base := range a.bases {
@@ -261,10 +270,11 @@ func specConfigs(a axes, thorough bool) []Config {
 	var out []Config
 	specPaths := []string{unset, "", "x", "/x/y/"}
 	docs := []string{unset, "openapi.json", "", "d/e.json"}
-	bytesAlpha := []string{`{"swagger":"2.0","info":{"title":"<b>&\"'","version":"1"},"paths":{}}` + "\n", "not json at all \xff\x00<html>", ""}
+	bytesAlpha := []string{`{"swagger":"2.0","info":{"title":"<b>&\"'","version":"1"},"paths":{}}` + "\n", "not json at all \xff\x00<html>"}
 	if thorough {
 		specPaths = append(specPaths, "../up", mk("Pq"))
 		docs = append(docs, "spec", "swagger.json/", mk("Aq")+".json")
+		bytesAlpha = append(bytesAlpha, "")
 	}
 	for _, base := range a.bases {
 		for _, sp := range specPaths {
@@ -385,6 +395,7 @@ func main() {
 		r.Finish("replay of one case", false)
 	}
 
+	stopProf := startProf()
 	a := theAxes(r.Thorough())
 	var mu sync.Mutex
 	perKind := map[string]int{}
@@ -481,6 +492,7 @@ func main() {
 		flush(t)
 	})
 
+	stopProf()
 	kinds := make([]string, 0, len(perKind))
 	for k := range perKind {
 		kinds = append(kinds, k)
